@@ -165,6 +165,65 @@ Section FANP.
   Definition valid_scenario (sc : scenario) : bool := forallb valid_obstacle (sc_obstacles sc).
   Definition valid_pproblem (p : pproblem) : bool := vstate (pp_init p) && forallb vstate (pp_goals p).
 
+
+  (* ------------------------------------------------------------------ the result is valid again *)
+  Lemma mapM_valid {A B} (f : A -> res B) (v : B -> bool) l l' :
+    (forall x y, f x = Ok y -> v y = true) -> mapM f l = Ok l' -> forallb v l' = true.
+  Proof.
+    intros K H. apply (Forall2_forallb v l l'). apply (mapM_all f (fun _ y => v y = true) l l'); assumption.
+  Qed.
+
+  Lemma tr_occs_valid l l' : mapM (tr_occ tau fuel t a c s) l = Ok l' -> forallb vshape l' = true.
+  Proof.
+    apply mapM_valid. intros x y E. unfold tr_occ in E. destruct (valid_angle tau a); [|discriminate].
+    apply (tr_shape_valid tau fuel t a c s _ _ E).
+  Qed.
+
+  Lemma tr_states_valid l l' : mapM (tr_state tau fuel t a c s) l = Ok l' -> forallb vstate l' = true.
+  Proof. apply mapM_valid. apply (tr_state_valid tau tau_pos fuel t a c s). Qed.
+
+  Lemma tr_prediction_valid p p' : tr_prediction tau fuel t a c s p = Ok p' -> valid_prediction p' = true.
+  Proof.
+    unfold tr_prediction. destruct (valid_angle tau a); [|discriminate]. destruct p as [sts sh|occs]; intro H.
+    - apply bind_ok in H. destruct H as [sts' [E H]]. inversion H; subst. simpl. apply (tr_states_valid _ _ E).
+    - apply bind_ok in H. destruct H as [occs' [E H]]. inversion H; subst. simpl. apply (tr_occs_valid _ _ E).
+  Qed.
+
+  Lemma tr_obstacle_valid o o' : tr_obstacle tau fuel t a c s o = Ok o' -> valid_obstacle o' = true.
+  Proof.
+    destruct o as [sh init|sh init pred|pred|sh]; intro H; unfold tr_obstacle in H;
+      destruct (valid_angle tau a) eqn:V; try discriminate.
+    - apply bind_ok in H. destruct H as [i' [E H]]. inversion H; subst. simpl.
+      apply (tr_state_valid tau tau_pos fuel t a c s _ _ E).
+    - apply bind_ok in H. destruct H as [p' [Ep H]]. apply bind_ok in H. destruct H as [i' [Ei H]].
+      inversion H; subst. simpl. apply andb_true_iff. split; [apply (tr_state_valid tau tau_pos fuel t a c s _ _ Ei)|].
+      apply optM_ok in Ep. destruct pred as [p|], p' as [q|]; try contradiction; auto.
+      apply tr_prediction_valid with (1 := Ep).
+    - apply bind_ok in H. destruct H as [p' [Ep H]]. inversion H; subst. simpl.
+      apply optM_ok in Ep. destruct pred as [p|], p' as [q|]; try contradiction; auto.
+      apply (tr_occs_valid _ _ Ep).
+    - apply bind_ok in H. destruct H as [sh' [E H]]. inversion H; subst. simpl.
+      apply (tr_shape_valid tau fuel t a c s _ _ E).
+  Qed.
+
+  Lemma tr_scenario_valid sc sc' : tr_scenario tau fuel t a c s sc = Ok sc' -> valid_scenario sc' = true.
+  Proof.
+    unfold tr_scenario. destruct (valid_angle tau a); [|discriminate]. intro H.
+    apply bind_ok in H. destruct H as [n' [En H]]. apply bind_ok in H. destruct H as [os' [Eo H]].
+    inversion H; subst. unfold valid_scenario; cbn [sc_obstacles].
+    apply (mapM_valid _ _ _ _ tr_obstacle_valid Eo).
+  Qed.
+
+  Lemma tr_pproblem_valid p p' : tr_pproblem tau fuel t a c s p = Ok p' -> valid_pproblem p' = true.
+  Proof.
+    unfold tr_pproblem. intro H. apply bind_ok in H. destruct H as [i' [Ei H]].
+    apply bind_ok in H. destruct H as [g' [Eg H]]. inversion H; subst. unfold valid_pproblem; cbn [pp_init pp_goals].
+    apply andb_true_iff. split; [apply (tr_state_valid tau tau_pos fuel t a c s _ _ Ei) | apply (tr_states_valid _ _ Eg)].
+  Qed.
+
+  Lemma tr_ppset_valid ps ps' : tr_ppset tau fuel t a c s ps = Ok ps' -> forallb valid_pproblem ps' = true.
+  Proof. apply mapM_valid. apply tr_pproblem_valid. Qed.
+
   Hypothesis fuel_ok : (3 <= fuel)%nat.
   Hypothesis angle_ok : valid_angle tau a = true.
 
@@ -239,3 +298,20 @@ Section FANP.
   Lemma tr_ppset_total ps : forallb valid_pproblem ps = true -> exists ps', tr_ppset tau fuel t a c s ps = Ok ps'.
   Proof. apply mapM_forallb. apply tr_pproblem_total. Qed.
 End FANP.
+
+(* ---------------------------------------------------------------------- two motions in a row: a transformed
+   scenario / planning-problem set can be transformed again, whatever the first (successful) motion was *)
+Lemma tr_scenario_chain tau (tau_pos : 0 < tau) fuel t1 a1 c1 s1 t2 a2 c2 s2 sc sc' :
+  (3 <= fuel)%nat -> valid_angle tau a2 = true -> tr_scenario tau fuel t1 a1 c1 s1 sc = Ok sc' ->
+  exists sc'', tr_scenario tau fuel t2 a2 c2 s2 sc' = Ok sc''.
+Proof.
+  intros F V H. apply (tr_scenario_total tau tau_pos fuel t2 a2 c2 s2 F V).
+  apply (tr_scenario_valid tau tau_pos fuel t1 a1 c1 s1 sc sc' H).
+Qed.
+Lemma tr_ppset_chain tau (tau_pos : 0 < tau) fuel t1 a1 c1 s1 t2 a2 c2 s2 ps ps' :
+  (3 <= fuel)%nat -> valid_angle tau a2 = true -> tr_ppset tau fuel t1 a1 c1 s1 ps = Ok ps' ->
+  exists ps'', tr_ppset tau fuel t2 a2 c2 s2 ps' = Ok ps''.
+Proof.
+  intros F V H. apply (tr_ppset_total tau tau_pos fuel t2 a2 c2 s2 F V).
+  apply (tr_ppset_valid tau tau_pos fuel t1 a1 c1 s1 ps ps' H).
+Qed.
